@@ -134,7 +134,10 @@ def compute_unwindset(h, srcdir, target_dir):
     rules = h.get("unwindset")
     if not rules:
         return None, []
-    rc, out, to, _ = sh(kani_cmd(h, target_dir, ["--only-codegen"]), cwd=srcdir, timeout=600)
+    # `--only-codegen` leaves only the raw symtab (cbmc --show-loops can crash on it); running
+    # cargo kani with `--cbmc-args --show-loops` makes kani-driver produce the final goto
+    # binary (its own output parser then gives up, which is ignored here)
+    rc, out, to, _ = sh(kani_cmd(h, target_dir, ["-Z", "unstable-options"]) + ["--cbmc-args", "--show-loops"], cwd=srcdir, timeout=900)
     g = find_goto(target_dir, h)
     if g is None:
         return None, ["no goto binary found for show-loops (rc=%s)" % rc]
